@@ -44,6 +44,9 @@ def run(repo, tier) -> Result:
     check_resume("C01", res, repo.method("hexital.core.indicator", "Indicator", "_find_calc_index"), "self.candles", "membership")
     check_append_order("C01", res, repo, parts=("indicator", "manager"))
     check_merge("C01", res, repo)
+    from ..driver import check_merge_callers
+
+    check_merge_callers("C01", res, repo)
     from ..contracts import check_all
 
     check_all("C01", res, repo)
